@@ -353,7 +353,7 @@ func (P *Program) skipGo(f *ssa.Function) bool { return P.noGo[f.String()] }
 
 var skipInitPkgs = map[string]bool{
 	"net/http": true, "net": true, "os": true, "runtime": true, "syscall": true, "internal/poll": true,
-	"crypto/tls": true, "crypto/x509": true, "flag": true, "testing": true, "log": true,
+	"crypto/tls": true, "flag": true, "testing": true, "log": true,
 	"k8s.io/klog/v2": true, "google.golang.org/grpc": true, "google.golang.org/protobuf/internal/impl": true,
 	"reflect": true, "internal/godebug": true, "internal/cpu": true, "golang.org/x/sys/cpu": true,
 	"os/signal": true, "os/exec": true, "net/http/httptrace": true, "mime": true, "mime/multipart": true,
